@@ -105,3 +105,20 @@ fn timer_self_disable_and_drop() {
     el.dispatch(Duration::ZERO, &mut n).unwrap();
     for i in 1..=2 { p.ping(); el.dispatch(Duration::ZERO, &mut n).unwrap(); assert_eq!(n, i); }
 }
+
+/// an explicit non-Continue return wins over the deferred request: a source that asks disable(own) but
+/// returns Reregister stays enabled; one that returns Continue gets disabled
+#[test]
+fn explicit_reregister_wins_over_deferred_disable() {
+    for (mode, expect) in [(1u8, 3u32), (0u8, 1u32)] {
+        let mut el: EventLoop<u32> = EventLoop::try_new().unwrap();
+        let h = el.handle();
+        let (ping, src) = make_ping().unwrap();
+        let tok: Rc<Cell<Option<RegistrationToken>>> = Rc::new(Cell::new(None));
+        let (h2, t2) = (h.clone(), tok.clone());
+        tok.set(Some(h.insert_source(Src { ping: src, mode }, move |_, _, n: &mut u32| { *n += 1; h2.disable(&t2.get().unwrap()).unwrap(); }).unwrap()));
+        let mut n = 0;
+        for _ in 0..3 { ping.ping(); el.dispatch(Duration::ZERO, &mut n).unwrap(); }
+        assert_eq!(n, expect, "mode {}: explicit Reregister must win over the deferred disable; a Continue return lets the deferred disable take effect", mode);
+    }
+}
